@@ -450,7 +450,8 @@ def run_case(case, ctx):
     if entry in ("matmul_vec", "matmul_bcast", "matmul", "mul_const"):
         pass
     R = torch.randn(tuple(rshape), generator=g, dtype=torch.float64).to(dt).requires_grad_(case["rhs_grad"])
-    L = torch.randn(*batch, 2, n, generator=g, dtype=torch.float64).to(dt).requires_grad_(case["rhs_grad"])
+    # the left factor's flag is independent of the right-hand side's (a positional needs_input_grad slip shows only in mixed subsets)
+    L = torch.randn(*batch, 2, n, generator=g, dtype=torch.float64).to(dt).requires_grad_(bool((case["rseed"] >> 3) % 2))
     idx = (Ellipsis, slice(0, max(1, n - 1)), slice(None)) if float(torch.rand((), generator=g)) < 0.5 else (Ellipsis, int(torch.randint(n, (), generator=g)), slice(None))
 
     if entry in ("bilinear", "bilinear_extra_dim"):
